@@ -135,7 +135,8 @@ type layout struct {
 	BloomOff, BloomSize int
 	IndexOff, IndexSize int
 	FooterOff           int
-	blockOf             []int // entry index -> block number
+	blockOf             []int    // entry index -> block number
+	bloomHeaders        [][2]int // [start,end) of every per-block filter header (12-byte record prefix + 32-byte filter header)
 }
 
 const footerSize = 68
@@ -225,6 +226,11 @@ func parseLayout(file []byte, rows []row) *layout {
 	}
 	if l.BloomSize > 0 && (l.BloomOff <= 0 || l.BloomOff+l.BloomSize > l.IndexOff) {
 		return nil
+	}
+	for pos := l.BloomOff; l.BloomSize > 0 && pos+12 <= l.BloomOff+l.BloomSize; {
+		sz := int(binary.LittleEndian.Uint32(file[pos+8:]))
+		l.bloomHeaders = append(l.bloomHeaders, [2]int{pos, min(pos+12+32, l.BloomOff+l.BloomSize)})
+		pos += 12 + sz
 	}
 	ents, _, err := decodeBlock(file[l.IndexOff : l.IndexOff+l.IndexSize])
 	if err != nil || len(ents) == 0 {
@@ -317,6 +323,20 @@ func (l *layout) interiorNonTrivial(i int) bool {
 	j := i - l.Blocks[b].First
 	lastInterval := (l.Blocks[b].N - 1) / 16
 	return j%16 != 0 && j/16 < lastInterval
+}
+
+// inBloomHeader reports whether p lies in a per-block filter header; if so it
+// also returns the first position after that header.
+func (l *layout) inBloomHeader(p int) (bool, int) {
+	if l == nil {
+		return false, 0
+	}
+	for _, h := range l.bloomHeaders {
+		if p >= h[0] && p < h[1] {
+			return true, h[1]
+		}
+	}
+	return false, 0
 }
 
 // region names the file region of byte offset p.
